@@ -156,7 +156,8 @@ def variants(params):
       out.append(("%s=%s" % (name, not default), {name: (not default)}))
     elif isinstance(default, int) and name in ("symmetric", "use_sigmoid", "use_stochastic_rounding"):
       out.append(("%s=%s" % (name, 1 - default), {name: 1 - default}))
-    elif name in ALT and (default is None or isinstance(default, (str, float))):
+    elif name in ALT and (default is None or isinstance(default, (str, float, int))):
+      # (int: quantized_relu_po2 spells its default negative_slope as the int 0 - seed c09-6)
       for i, a in enumerate(ALT[name]):
         lab = a if not isinstance(a, tuple) else a[0]
         if isinstance(a, list):
